@@ -21,7 +21,9 @@ import (
 // within the program (0 = first invocation made by the program).
 type ordMap map[uint64]int
 
-var invPrefixRe = regexp.MustCompile(`^inv([0-9]+)`)
+// an "inv<index>" component of an op name (components are joined by "_"; no bigslice
+// operator is called inv<digits>)
+var invCompRe = regexp.MustCompile(`(^|_)inv([0-9]+)`)
 
 func (o ordMap) idx(i uint64) string {
 	if k, ok := o[i]; ok {
@@ -30,14 +32,18 @@ func (o ordMap) idx(i uint64) string {
 	return fmt.Sprintf("?%d", i)
 }
 
-// normOp replaces the leading "inv<index>" of an op name or combine key by the ordinal.
+// normOp replaces every "inv<index>" component of an op name or combine key by the
+// invocation's ordinal (op names start with the compiling invocation's index; the name
+// of a task that re-shuffles a reused result may also embed the result's op name).
 func (o ordMap) normOp(op string) string {
-	m := invPrefixRe.FindStringSubmatch(op)
-	if m == nil {
-		return op
-	}
-	i, _ := strconv.ParseUint(m[1], 10, 64)
-	return "inv" + o.idx(i) + op[len(m[0]):]
+	return invCompRe.ReplaceAllStringFunc(op, func(m string) string {
+		pre := ""
+		if m[0] == '_' {
+			pre, m = "_", m[1:]
+		}
+		i, _ := strconv.ParseUint(m[3:], 10, 64)
+		return pre + "inv" + o.idx(i)
+	})
 }
 
 func (o ordMap) name(n exec.TaskName) string {
@@ -221,18 +227,19 @@ func refStage(s bigslice.Slice) []bigslice.Slice {
 	}
 }
 
-// refStages computes the set of expected stage bodies ("inv<ord>_<ops bottom-up>",
-// and "<result root op>_shuffle" for re-shuffled results) for everything reachable from s.
+// refStages computes the set of expected stage bodies ("inv<ord>_<ops bottom-up>")
+// for everything reachable from s.
 func refStages(o ordMap, inv uint64, s bigslice.Slice, shuffled bool, out map[string]bool, seen map[string]bool) {
 	if r, ok := isResult(s); ok {
 		rt := exec.VerifC16ResultTasks(r)
-		if shuffled && len(rt) > 0 {
-			out[stripNamer(o.normOp(rt[0].Name.Op))+"_shuffle"] = true
-		}
+		// (tasks that re-shuffle a reused result are not stages of any slice: their
+		// names are not prescribed here; their wiring is checked in checkInvariants)
 		// the reused tasks themselves: described by the graph they were compiled from
 		all, _ := reach(rt)
 		for _, t := range all {
-			out[stripNamer(o.normOp(t.Name.Op))] = true
+			if producerClass(t) != "result-reshuffle" {
+				out[stripNamer(o.normOp(t.Name.Op))] = true
+			}
 		}
 		return
 	}
@@ -377,6 +384,9 @@ func checkInvariants(o ordMap, inv uint64, root bigslice.Slice, roots []*exec.Ta
 	refStages(o, inv, root, false, want, map[string]bool{})
 	got := map[string]bool{}
 	for _, t := range all {
+		if producerClass(t) == "result-reshuffle" {
+			continue
+		}
 		got[stripNamer(o.normOp(t.Name.Op))] = true
 	}
 	for g := range got {
